@@ -51,3 +51,18 @@ def ops_from_json(j):
         else:
             out.append((o[0], o[1]))
     return tuple(out)
+
+
+def arc_weights(ops, offset=0, unit=("I",)):
+    """Indeterminates on arcs (and final weights); initial weights are the semiring
+    one so that the degree budget D is spent on arcs: a pair of paths with k1 + k2
+    arcs has degree k1 + k2 + 2 instead of k1 + k2 + 4."""
+    out = []
+    k = offset
+    for o in ops:
+        if o[0] in unit:
+            out.append(Poly.one)
+        else:
+            out.append(Poly.var(k))
+            k += 1
+    return out
